@@ -157,6 +157,13 @@ def api_tie(infos, texts_for, probes_for, limit="-"):
         names = pr.split(" ")
         for k, (x, y) in enumerate(zip(av[1:], bv[1:])):
             n += 1
+            if x != y and x.endswith("RUNAWAY"):
+                # a runaway iterator (e.g. \K inside a look-behind yields the same match for ever):
+                # the harness cuts the real sequence after |text|+5 items, the model prints a fixed
+                # number of items; they agree if the model's sequence starts with the real items
+                xi = x.split(";")[:-1]
+                if y.split(";")[:len(xi)] == xi and len(y.split(";")) >= len(xi):
+                    continue
             if x != y and "FUEL" not in y:
                 if info["model"].get("f1") == "1":
                     continue
